@@ -179,7 +179,15 @@ def report(pid, tier, seed, mod, units, results, t0, write=True):
             pref = [o['name'].rsplit('/', 1)[0] for o in openfuncs]
             missing = [n for n in missing if not any(n.startswith(p) for p in pref)]
         if missing:
-            engine_errors.append('%d registered obligations were not generated, e.g. %s' % (len(missing), missing[:3]))
+            # strict on the sources the obligations were registered for; after a change of a function under contract the set of paths (and hence
+            # of obligation names) may legitimately differ: the missing ones are then undecided (printed), not an engine error
+            reg_h = json.load(open(base_p)).get('_hashes', {}).get(pid, {})
+            changed = sorted(f['ref'] for f in functions.values() if f['ref'] in reg_h and reg_h[f['ref']] != f.get('sha256_16')) + sorted(r_ for r_ in reg_h if r_ not in {f['ref'] for f in functions.values()})
+            if reg_h and changed:
+                for n in missing[:20]:
+                    opens.append({'name': n, 'status': 'open', 'backend': 'registered-set', 'detail': 'registered obligation not generated after a source change of %s' % ', '.join(changed[:3])})
+            else:
+                engine_errors.append('%d registered obligations were not generated, e.g. %s' % (len(missing), missing[:3]))
     if not obls and not bounded:
         engine_errors.append('zero obligations generated')
     # ---- replay of violations on the real code
